@@ -83,6 +83,8 @@ pub enum EndMode {
     Last,
     /// consume the rest with `Iterator::fold()`, collecting the items
     Fold,
+    /// consume the rest with `DoubleEndedIterator::rfold()`, collecting the items
+    RFold,
 }
 
 #[derive(Clone, Copy, Debug, PartialEq, Eq, Hash, Serialize, Deserialize)]
@@ -139,6 +141,8 @@ pub enum OpKind {
     Getters,
     /// drop the target cache (slot 0 is re-created fresh, slot 1 becomes empty)
     DropCache,
+    /// the same, but the cache is dropped by an unwinding panic of the caller
+    DropCacheUnwinding,
 }
 
 impl OpKind {
@@ -173,6 +177,7 @@ impl OpKind {
             OpKind::DebugFmt => "debug_fmt",
             OpKind::Getters => "getters",
             OpKind::DropCache => "drop",
+            OpKind::DropCacheUnwinding => "drop (while unwinding)",
         }
     }
 
